@@ -51,7 +51,7 @@ func TestC13Exhaustive(t *testing.T) {
 	vk.Parallel(h, n*n, func(w, idx int) {
 		l, r := all[idx/n], all[idx%n]
 		for _, cn := range ctxSizes {
-			c := DiffCase{L: l, R: r, N: cn}
+			c := DiffCase{L: l, R: r, N: cn, Lay: (idx/n + idx%n + cn&3) % 4}
 			o := &vk.Obs{}
 			slots[w].Enter(c)
 			msg := vk.Guard(func() string { return runC13(c, o) })
@@ -133,7 +133,20 @@ func TestC13Rand(t *testing.T) {
 	vk.Rapid(h, t, func(t *rapid.T) DiffCase {
 		alpha := rapid.SampledFrom([][]string{{"a", "b"}, {"a", "b", "c"}, {"a", "b", "c", "d", ""}}).Draw(t, "alpha")
 		l, r := genPair(t, alpha, rapid.SampledFrom([]int{40, 40, 100}).Draw(t, "maxLen"))
-		return DiffCase{L: l, R: r, N: rapid.SampledFrom([]int{0, 1, 1, 2, 2, 3, 3, 5, 8, 50, -1, math.MaxInt, math.MaxInt - 2}).Draw(t, "n")}
+		lay := rapid.SampledFrom([]int{0, 0, 0, 1, 2, 3}).Draw(t, "layout")
+		if (lay == 1 || lay == 2) && len(l) > 0 {
+			// a truncated copy: one input is a prefix / suffix of the other
+			k := rapid.IntRange(0, len(l)).Draw(t, "cut")
+			if lay == 1 {
+				r = l[:k:k]
+			} else {
+				r = l[k:]
+			}
+			if rapid.Bool().Draw(t, "cutSwap") {
+				l, r = r, l
+			}
+		}
+		return DiffCase{L: l, R: r, Lay: lay, N: rapid.SampledFrom([]int{0, 1, 1, 2, 2, 3, 3, 5, 8, 50, -1, math.MaxInt, math.MaxInt - 2}).Draw(t, "n")}
 	}, runC13)
 }
 
